@@ -265,7 +265,7 @@ func genC10Doc(t *rapid.T) map[string]any {
 
 func genC10(t *rapid.T) any {
 	c := &C10Case{}
-	c.Class = rapid.SampledFrom([]string{"valid", "valid", "mutated", "mutated", "mutated", "bytes", "hostile", "hostile", "hostile-mutated", "fault", "fault", "fault", "cyclic-format", "join-on", "join-on", "scale"}).Draw(t, "class")
+	c.Class = rapid.SampledFrom([]string{"valid", "valid", "mutated", "mutated", "mutated", "bytes", "hostile", "hostile", "hostile-mutated", "fault", "fault", "fault", "cyclic-format", "join-on", "join-on", "scale", "dual-subquery"}).Draw(t, "class")
 	c.Opts = genC10Opts(t)
 	c.Proc = rapid.SampledFrom([]int{0, 0, 1, 2, 4}).Draw(t, "procs")
 	if rapid.IntRange(0, 3).Draw(t, "reexec") == 0 {
@@ -437,6 +437,21 @@ func genC10(t *rapid.T) any {
 				c.SQL = strings.Replace(c.SQL, "`<-t2`", "`<-root.t2`", 1)
 			}
 		}
+	case "dual-subquery":
+		// a table-less scalar subquery whose select list mixes comparisons, nested subqueries, back references
+		// and `*` in any order, under outer queries that format, hash, sort or group what it returns
+		c.Doc = genC10Doc(t)
+		pool := []string{"1 = 1 AS flag", "*", "*", "(SELECT 2 FROM dual) AS n", "'a' AS s", "`<-.k` AS ok", "1 + 1 AS two", "1 IN (1, 2) AS m", "(SELECT 1 = 1 AS f2, * FROM dual) AS deep", "`<-.s` = 'a' AS cmp", "EXISTS (SELECT 1 FROM dual) AS ex"}
+		n := rapid.IntRange(1, 4).Draw(t, "nitems")
+		perm := rapid.Permutation(pool).Draw(t, "items")
+		sub := "(SELECT " + strings.Join(perm[:n], ", ") + " FROM dual)"
+		from := "t"
+		if c.Opts.Wrapped {
+			from = "root.t"
+		}
+		c.SQL = fmt.Sprintf(rapid.SampledFrom([]string{"SELECT DISTINCT %s AS x FROM %s", "SELECT %s AS x, * FROM %s", "SELECT DISTINCT *, %s AS x FROM %s", "SELECT CONCAT(%s) AS x FROM %s", "SELECT HASH(%s, 'md5') AS x FROM %s",
+			"SELECT %s AS x FROM %s ORDER BY x", "SELECT k, %s AS x FROM %s ORDER BY x DESC LIMIT 2", "SELECT ENCODE(%s, 'hex') AS x FROM %s", "SELECT COUNT(*) AS n FROM %[2]s GROUP BY %[1]s", "SELECT k FROM %[2]s WHERE %[1]s IS NOT NULL",
+			"SELECT DISTINCT %s AS x FROM %s UNION SELECT k FROM t2"}).Draw(t, "outer"), sub, from)
 	case "cyclic-format":
 		w := genWide(t, []string{"sel-sub", "sel-sub-root", "star-sub", "exists", "in-sub"})
 		c.Doc = w.Doc
@@ -519,7 +534,7 @@ func checkC10(c *C10Case) Result {
 		if parsed {
 			res.Labels = append(res.Labels, "reaches-build")
 		}
-		res.NonTrivial = parsed || c.Class == "fault" || c.Class == "cyclic-format" || c.Class == "mutated" || c.Class == "hostile-mutated" || c.Class == "scale"
+		res.NonTrivial = parsed || c.Class == "fault" || c.Class == "cyclic-format" || c.Class == "mutated" || c.Class == "hostile-mutated" || c.Class == "scale" || c.Class == "dual-subquery"
 	}
 	return res
 }
